@@ -89,6 +89,12 @@ def families(eng, tier, seed):
                 else: r.append(seq(ti)); fl["ty"] = len(r) - 1; fl["type_name"] = "Vec<Self>"
             multi = len({tuple(t["path"]) for t in reg if t["path"]}) < sum(1 for t in reg if t["path"])
             fams.append(make_family("retarget-%s-%d.%s.%d" % (name, ti, vi, fi), reg, sets[(ti + fi) % len(sets)], mutate=mut, dedup=multi, symbolic=False))
+    # same-path families after de-duplication (C02's quantifier): every path must still resolve with the right arity
+    import c03
+    for ename, efn in c03.edits():
+        for order in (0, 1):
+            r = c03.edit_family(ename, efn, order)(None)
+            fams.append(make_family("samepath-%s-o%d-dedup" % (ename, order), r, sets[0], dedup=True, symbolic=False))
     return fams
 
 def confirm(v, real):
